@@ -322,6 +322,29 @@ def loadTree (lower : Str → Str) (t : Tree) : Option LayerSet :=
     | none => none
     | some ls' => some { layers := ls', pathSet := (ls'.drop 1).map (fun l => lower l.path) }
 
+/-! ### partial loads: the layer filter of `DataRequest` (`data_request.rs:62-82`, `layer.rs:71-96`) -/
+
+structure LFilter where
+  all : Bool
+  loadDefault : Bool
+  custom : Option (Str → Str → Bool)
+
+def LFilter.shouldLoad (f : LFilter) (name dir : Str) : Bool :=
+  f.all || (f.loadDefault && dir = glyphsDir) || (match f.custom with | some c => c name dir | none => false)
+
+def LFilter.includesDefault (f : LFilter) : Bool := f.all || f.loadDefault
+
+/-- `LayerContents::load` with a filter (after the repair: the empty placeholder is added only when the
+    filter does not ask for the default layer AND no loaded layer is the default one) -/
+def loadTreeF (lower : Str → Str) (f : LFilter) (t : Tree) : Option LayerSet :=
+  match loadLayers lower t.dirs (t.layercontents.filter fun e => f.shouldLoad e.1 e.2) with
+  | none => none
+  | some ls =>
+    let ls₁ := if !f.includesDefault && !ls.any (·.isDefault) then ls ++ [Layer.default] else ls
+    match defaultFirst ls₁ with
+    | none => none
+    | some ls' => some { layers := ls', pathSet := (ls'.drop 1).map (fun l => lower l.path) }
+
 /-- what the containers report: per layer its name, directory and glyph names -/
 def report (S : LayerSet) : List (Str × Str × List Str) := S.layers.map (fun l => (l.name, l.path, l.glyphs))
 
